@@ -66,7 +66,7 @@ func pool(thorough bool) []val {
 		p = append(p,
 			val{Src: "(-7)", Fam: "int"}, val{Src: "100", Fam: "int"}, val{Src: "(-9223372036854775807 - 1)", Fam: "int"}, val{Src: "IB.new(0)", Fam: "int", Desc: true},
 			val{Src: "IB.bear.new(3)", Fam: "int", Desc: true}, val{Src: "9007199254740993", Fam: "int"}, val{Src: "9007199254740992", Fam: "int"},
-			val{Src: "(-0.0)", Fam: "float"}, val{Src: "1e300", Fam: "float"}, val{Src: "0.1", Fam: "float"}, val{Src: "FB.new(0.0)", Fam: "float", Desc: true},
+			val{Src: "(-0.0)", Fam: "float"}, val{Src: "1.0e300", Fam: "float"}, val{Src: "0.1", Fam: "float"}, val{Src: "FB.new(0.0)", Fam: "float", Desc: true},
 			val{Src: `"B"`, Fam: "str"}, val{Src: `"日本"`, Fam: "str"}, val{Src: `"a\nb"`, Fam: "str"}, val{Src: `SB.new("")`, Fam: "str", Desc: true}, val{Src: `SB.bear.new("ab")`, Fam: "str", Desc: true},
 			val{Src: "[nil]"}, val{Src: "[1, [2, [3]]]"}, val{Src: `["a"]`}, val{Src: "[{a: 1}]"}, val{Src: "[%{1: 2}]"}, val{Src: "[(1:3)]"},
 			val{Src: "{b: 2, a: 1}"}, val{Src: "{_p: 1}"}, val{Src: "{a: [1]}"}, val{Src: "OB.bear.bear"},
@@ -89,7 +89,12 @@ func fullPrelude(p []val) string {
 	return sb.String()
 }
 
+var harnessSyntax func(string)
+
 func res(o panrun.Obs) string {
+	if o.Kind == "syntax" && harnessSyntax != nil {
+		harnessSyntax(o.ErrMsg)
+	}
 	switch o.Kind {
 	case "value":
 		return o.Repr
@@ -350,6 +355,7 @@ func (r *runner) orderLaws(fam string, mine func(k int) bool) {
 }
 
 func run(c *core.Ctx) {
+	harnessSyntax = func(msg string) { c.HarnessError("a generated comparison or the pool prelude does not parse: %s", msg) }
 	p := pool(c.Thorough())
 	c.Note("pool_size", len(p))
 	r := &runner{c: c, p: p}
